@@ -12,26 +12,26 @@ S == Rec.sys
 Out == Rec.out
 OutOK == Out.err = ""
 T == Out.sys
-SameTable(a, b) == a = b
 
+(* the same system up to the order of the R-vectors *)
+SameSystem(a, b) == b.nw = a.nw /\ b.lat = a.lat /\ b.cen = a.cen /\ SameMats(a, b)
+(* clauses named file_layout, reader_model, files_written describe HOW the code does it (layout of the files it writes, the
+   reader step by step, names of the files of the directory); the harness reports them as information.  The other clauses
+   are the statement of C18. *)
 TbClauses ==
-   LET spec == ReadTb(Rec.tb, Rec.needAA, Rec.given, S.cen)
+   LET spec == ReadTbC(Rec.tb, Rec.needAA, Rec.given, S.cen, Rec.conv2)
        carries == (Rec.needAA => Has(S, "AA")) /\ (~Rec.given => Has(S, "AA"))
-       centres == Rec.given \/ (Has(S, "AA") /\ AADiagZero(S)) IN
-   [ file_layout   |-> Rec.tb = TbLines(S),
-     reader_model  |-> IF spec.err = "" THEN OutOK /\ T.nw = spec.sys.nw /\ T.lat = spec.sys.lat /\ T.cen = spec.sys.cen
-                                              /\ T.R = spec.sys.R /\ T.mats = spec.sys.mats
-                       ELSE ~OutOK,
+       centres == Rec.given \/ (Rec.conv2 /\ Has(S, "AA") /\ AADiagZero(S)) IN
+   [ file_layout   |-> Rec.tb = TbLinesC(S, Rec.conv2),
+     reader_model  |-> IF spec.err = "" THEN OutOK /\ SameSystem(spec.sys, T) ELSE ~OutOK,
      no_failure    |-> carries => OutOK,
      core          |-> (carries /\ OutOK) => SameCore(S, T) /\ SameLattice(S, T),
      centres       |-> (carries /\ OutOK /\ centres) => SameCentres(S, T),
-     aa            |-> (carries /\ OutOK /\ centres /\ Rec.needAA) => T.mats["AA"] = S.mats["AA"] ]
+     aa            |-> (carries /\ OutOK /\ (centres \/ ~Rec.conv2) /\ Rec.needAA) => SameTable(S, T, "AA") ]
 HrClauses ==
    LET spec == ReadHr(Rec.hr, Rec.wcc, S.lat, Rec.given, S.cen) IN
    [ file_layout   |-> Rec.hr = HrLines(S) /\ Rec.wcc = WccLines(S.cen),
-     reader_model  |-> IF spec.err = "" THEN OutOK /\ T.nw = spec.sys.nw /\ T.cen = spec.sys.cen /\ T.R = spec.sys.R
-                                              /\ T.mats = spec.sys.mats
-                       ELSE ~OutOK,
+     reader_model  |-> IF spec.err = "" THEN OutOK /\ SameSystem(spec.sys, T) ELSE ~OutOK,
      no_failure    |-> OutOK,
      core          |-> OutOK => SameCore(S, T) /\ SameLattice(S, T),
      centres       |-> OutOK => SameCentres(S, T) ]
@@ -44,7 +44,8 @@ NpzClauses ==
      core          |-> OutOK => SameCore(S, T) /\ SameLattice(S, T) /\ SameCentres(S, T),
      all_matrices  |-> OutOK => SameMats(S, T),
      periodic      |-> OutOK => T.periodic = S.periodic,
-     pointgroup    |-> OutOK => T.pg = S.pg /\ GroupClosure(AsSet(S.pg)) = AsSet(S.pg) ]
+     phonon        |-> OutOK => T.phon = S.phon,
+     pointgroup    |-> OutOK => AsSet(T.pg) = AsSet(S.pg) /\ GroupClosure(AsSet(S.pg)) = AsSet(S.pg) ]
 Clauses == CASE Rec.fmt = "tb" -> TbClauses
              [] Rec.fmt = "hr" -> HrClauses
              [] Rec.fmt = "npz" -> NpzClauses
